@@ -99,7 +99,7 @@ def cases(tier, seed):
             r = rng.random()
             if r < 0.25:
                 sub = rng.sample(lnames, rng.randint(1, len(lnames)))
-                opts['layer'] = ['%s\\.%s$' % (spec['layers_module'], s)
+                opts['layer'] = [vworld.layer_pattern(spec, s)
                                  for s in sub]
             if rng.random() < 0.2:
                 opts['stop'] = True
